@@ -168,20 +168,23 @@ package builder
 //
 // promote_options_to_constructor: builders that are not selected come back as they were; a selected builder
 // keeps its name, package, object, properties, factories and options (the promoted option stays an option) -
-// only constructor arguments and constructor assignments are added; no builder is added or removed.
+// only constructor arguments and constructor assignments are added, and an added assignment shares no
+// argument record with the option it was promoted from (a later rule rewriting the option's arguments in
+// place must not reach the constructor); no builder is added or removed.
+//@ spec ownAdded(as, n) = forall a: int :: n <= a && a < len(as) ==> as[a].Value.Argument == nil || fresh(as[a].Value.Argument)
 //@ func PromoteOptionsToConstructor$1
 //@   property C17
 //@   requires selector != nil
 //@   modifies builders[*], spare-capacity
 //@   ensures  same: result.1 == nil ==> result.0 == builders
 //@   ensures  others: forall i: int :: 0 <= i && i < len(builders) && !old(apply(selector, schemas, builders[i])) ==> builders[i] == old(builders[i])
-//@   ensures  selected: forall i: int :: 0 <= i && i < len(builders) && old(apply(selector, schemas, builders[i])) ==> builderCore(builders[i], old(builders[i])) && builders[i].Options == old(builders[i].Options) && len(builders[i].Constructor.Args) >= old(len(builders[i].Constructor.Args)) && len(builders[i].Constructor.Assignments) >= old(len(builders[i].Constructor.Assignments))
+//@   ensures  selected: forall i: int :: 0 <= i && i < len(builders) && old(apply(selector, schemas, builders[i])) ==> builderCore(builders[i], old(builders[i])) && builders[i].Options == old(builders[i].Options) && len(builders[i].Constructor.Args) >= old(len(builders[i].Constructor.Args)) && len(builders[i].Constructor.Assignments) >= old(len(builders[i].Constructor.Assignments)) && ownAdded(builders[i].Constructor.Assignments, old(len(builders[i].Constructor.Assignments)))
 //@   loop 0:
 //@     invariant doneothers: forall i: int :: 0 <= i && i <= $i && !old(apply(selector, schemas, builders[i])) ==> builders[i] == old(builders[i])
-//@     invariant done: forall i: int :: 0 <= i && i <= $i && old(apply(selector, schemas, builders[i])) ==> builderCore(builders[i], old(builders[i])) && builders[i].Options == old(builders[i].Options) && len(builders[i].Constructor.Args) >= old(len(builders[i].Constructor.Args)) && len(builders[i].Constructor.Assignments) >= old(len(builders[i].Constructor.Assignments))
+//@     invariant done: forall i: int :: 0 <= i && i <= $i && old(apply(selector, schemas, builders[i])) ==> builderCore(builders[i], old(builders[i])) && builders[i].Options == old(builders[i].Options) && len(builders[i].Constructor.Args) >= old(len(builders[i].Constructor.Args)) && len(builders[i].Constructor.Assignments) >= old(len(builders[i].Constructor.Assignments)) && ownAdded(builders[i].Constructor.Assignments, old(len(builders[i].Constructor.Assignments)))
 //@     invariant todo: forall i: int :: $i < i && i < len(builders) ==> builders[i] == old(builders[i])
 //@   loop 1:
 //@     invariant doneothers: forall k: int :: 0 <= k && k < i && !old(apply(selector, schemas, builders[k])) ==> builders[k] == old(builders[k])
-//@     invariant done: forall k: int :: 0 <= k && k < i && old(apply(selector, schemas, builders[k])) ==> builderCore(builders[k], old(builders[k])) && builders[k].Options == old(builders[k].Options) && len(builders[k].Constructor.Args) >= old(len(builders[k].Constructor.Args)) && len(builders[k].Constructor.Assignments) >= old(len(builders[k].Constructor.Assignments))
+//@     invariant done: forall k: int :: 0 <= k && k < i && old(apply(selector, schemas, builders[k])) ==> builderCore(builders[k], old(builders[k])) && builders[k].Options == old(builders[k].Options) && len(builders[k].Constructor.Args) >= old(len(builders[k].Constructor.Args)) && len(builders[k].Constructor.Assignments) >= old(len(builders[k].Constructor.Assignments)) && ownAdded(builders[k].Constructor.Assignments, old(len(builders[k].Constructor.Assignments)))
 //@     invariant todo: forall k: int :: i < k && k < len(builders) ==> builders[k] == old(builders[k])
-//@     invariant current: builderCore(builders[i], old(builders[i])) && builders[i].Options == old(builders[i].Options) && len(builders[i].Constructor.Args) >= old(len(builders[i].Constructor.Args)) && len(builders[i].Constructor.Assignments) >= old(len(builders[i].Constructor.Assignments))
+//@     invariant current: builderCore(builders[i], old(builders[i])) && builders[i].Options == old(builders[i].Options) && len(builders[i].Constructor.Args) >= old(len(builders[i].Constructor.Args)) && len(builders[i].Constructor.Assignments) >= old(len(builders[i].Constructor.Assignments)) && ownAdded(builders[i].Constructor.Assignments, old(len(builders[i].Constructor.Assignments)))
